@@ -1,1 +1,3 @@
+pub mod arrival;
+pub mod cost;
 pub mod supply;
